@@ -61,8 +61,9 @@ def observe(pt, env, rawv, via="ctor", od=False, shared=None):
             v = t.parse_value(pkt)
         except exceptions.CalibrationError:
             return {"k": "err-calib", "v": none, "raw": none, "cls": ""}
-        except ValueError as e:
-            if "enum lookup" in str(e):
+        except (ValueError, LookupError) as e:
+            # an enumerated type fails on an unlisted value; the wording (and whether it is a ValueError or a lookup error) is free
+            if pt["kind"] == "enum":
                 return {"k": "err-enum", "v": none, "raw": none, "cls": ""}
             return {"k": "X", "v": none, "raw": none, "cls": "ValueError: " + str(e)[:80]}
         except Exception as e:  # noqa: BLE001
